@@ -114,6 +114,24 @@ def lean_sources_for(prop):
     return sorted(seen)
 
 
+def regenerate_arith():
+    """Second tie for C06 / C07 / C10: re-translate the small arithmetic kernels from /repo's current source
+    (tools/py2lean_arith.py); the build that follows re-proves `generated = model`."""
+    rc, out, _ = sh([sys.executable, str(VERIF / "tools" / "py2lean_arith.py")])
+    if rc != 0:
+        return ["tools/py2lean_arith.py could not translate a kernel (construct outside the supported subset):\n" + out[-1500:]]
+    return []
+
+
+def audit_with_arith(prop, gen_module, thorough=False):
+    problems = regenerate_arith()
+    aud = audit(prop, thorough=thorough, extra_modules=[gen_module])
+    if problems:
+        aud["ok"] = False
+        aud["problems"] += problems
+    return aud
+
+
 def audit(prop, thorough=False, extra_modules=()):
     """Build the property module, grep for forbidden constructs, #print axioms of every theorem.
     Returns dict(ok, obligations, discharged, axioms, problems, checker_cmd)."""
